@@ -627,6 +627,15 @@ func formatTimezone(t time.Time, marker *variableMarker, prefixed bool) (string,
 
 	name, hours, minutes := getTimezoneInfo(t)
 
+	// An offset between -00:59 and -00:01 has zero hours. Its
+	// sign would be lost by the numeric formats below, which
+	// take the sign from the hours. Format the absolute offset
+	// and restore the sign afterwards.
+	negativeMinutes := hours == 0 && minutes < 0
+	if negativeMinutes {
+		minutes = -minutes
+	}
+
 	switch {
 	case marker.modifier == modTraditional && isNumeric && hours == 0 && minutes == 0:
 		tz = "Z"
@@ -655,6 +664,10 @@ func formatTimezone(t time.Time, marker *variableMarker, prefixed bool) (string,
 
 	if err != nil {
 		return "", err
+	}
+
+	if negativeMinutes && isNumeric && strings.HasPrefix(tz, "+") {
+		tz = "-" + tz[1:]
 	}
 
 	if prefixed && isNumeric {
